@@ -2,7 +2,7 @@
    Theorems about the scope machinery and the loop-range function of the visitor model; the
    model is tied to /repo by the correspondence run of ./check C08. *)
 From Coq Require Import ZArith List Bool String.
-From Verif Require Import BGate PyVal Ast State Unroll ResolveProofs ScopeProofs StackProofs.
+From Verif Require Import BGate PyVal Ast State Unroll ResolveProofs ScopeProofs StackProofs DefProofs.
 Import ListNotations.
 Open Scope Z_scope.
 
@@ -88,4 +88,21 @@ Theorem C08_program_ends_at_global_scope qasm2 check_only externals fuel prog o 
   List.length (scopes (o_state o)) = 1%nat /\ ctxs (o_state o) = [CGlobal].
 Proof. exact (run_visit_restores_stacks qasm2 check_only externals fuel prog o). Qed.
 Print Assumptions C08_program_ends_at_global_scope.
+
+(* repeated calls of a gate or subroutine start from the unmodified definition: every definition in force before a
+   visit -- of any statement or subroutine call, with any fuel, from any state, in either mode -- is in force and
+   unchanged after it; a definition is only ever ADDED, under a name not yet taken.  (Induction over the whole
+   visitor model, Lang/DefProofs.v.) *)
+Theorem C08_definitions_are_never_altered check_only externals fuel :
+  (forall st s out s', visit_stmt check_only externals fuel st s = Ok (out, s') ->
+     (forall n gd, sget n (gates s) = Some gd -> sget n (gates s') = Some gd) /\
+     (forall n sd, sget n (subs s) = Some sd -> sget n (subs s') = Some sd)) /\
+  (forall f args s r s', visit_call check_only externals fuel f args s = Ok (r, s') ->
+     (forall n gd, sget n (gates s) = Some gd -> sget n (gates s') = Some gd) /\
+     (forall n sd, sget n (subs s) = Some sd -> sget n (subs s') = Some sd)).
+Proof.
+  destruct (visit_keeps_definitions check_only externals fuel) as [Hs Hc].
+  split; [intros st s out s' E; exact (Hs st s out s' E)|intros f args s r s' E; exact (Hc f args s r s' E)].
+Qed.
+Print Assumptions C08_definitions_are_never_altered.
 
